@@ -875,6 +875,10 @@ mismatch between values and axes""".format(inferred, self.values.shape)
         if indexing == "label":
             indices = ax.loc(indices, mode=mode)
 
+        # a boolean mask selects the slices where it is True (numpy.take would read True / False as the positions 1 / 0)
+        if np.asarray(indices).dtype.kind == 'b':
+            indices = np.nonzero(np.asarray(indices))[0]
+
         values = self.values.take(indices, axis=pos, mode=mode, out=out)
 
         axes = self.axes.copy()
